@@ -29,7 +29,7 @@ def untyped_iri(i):
 ODD_SCHEME_IRIS = ["urn:x:u0", "mailto:u1@ex.org", "tel:+34985000000"]
 
 
-LIT_KINDS = ["str", "lang", "lang2", "integer", "int", "date", "decimal", "custom", "spaced"]
+LIT_KINDS = ["str", "lang", "lang2", "integer", "int", "date", "decimal", "custom", "spaced", "qlang", "qtyped"]
 
 
 def make_lit(kind, k):
@@ -52,6 +52,11 @@ def make_lit(kind, k):
         return ["lit", "%d.5" % k, XSD + "decimal", ""]
     if kind == "custom":
         return ["lit", "v%d" % k, CUSTOM_DT, ""]
+    if kind == "qlang":
+        # language-tagged / typed literals with quotes inside: the kind is read after the CLOSING quote, not after an inner one
+        return ["lit", ['she said "hi"', '"', 'a "b" c', '""x'][k], LANGSTRING, "en"]
+    if kind == "qtyped":
+        return ["lit", ['5" disk', '"q"', 'in "quotes" twice "x"', '\\"'][k], CUSTOM_DT, ""]
     if kind == "spaced":
         return ["lit", ["a  b", "x   y z", "two  blanks", " lead"][k], XSD_STRING, ""]
     if kind == "multiline":
